@@ -3,6 +3,7 @@ package scen
 import (
 	"bytes"
 	"fmt"
+	"math"
 
 	erpc "github.com/henrylee2cn/erpc/v6"
 	"github.com/henrylee2cn/erpc/v6/socket"
@@ -256,18 +257,37 @@ func c12Live(p Params) func() {
 	return func() {
 		begin()
 		pipes := [][]byte{nil, {'g'}, {'m'}, {'g', 'm'}, {'m', 'g'}, {'m', 'm'}}
-		protos := []string{"raw", "json", "pb", "thrift"}
+		protos := []string{"raw", "json", "pb", "thrift", "http"}
 		pp := pipes[vsched.Choose(len(pipes), "pipe")]
 		pr := protos[vsched.Choose(len(protos), "proto")]
-		fail := vsched.Choose(2, "handler_fails") == 1
+		// handler outcome: 0 result, 1 error status, 2 a result the body codec cannot encode (the framework falls back
+		// to an error reply), 3 panic, 4 no such route
+		outcome := vsched.Choose(5, "handler_outcome")
+		if pr == "http" && !(len(pp) == 0 || (len(pp) == 1 && pp[0] == 'g')) {
+			world.Counter("not_representable") // the HTTP-style protocol carries gzip as its only filter
+			return
+		}
 		srv := world.NewPeer("json")
 		h := srv.RouteCallFunc(func(ctx erpc.CallCtx, arg *string) (*string, *erpc.Status) {
-			if fail {
-				return nil, erpc.NewStatus(1000, "no", "")
+			switch outcome {
+			case 1:
+				return nil, erpc.NewStatus(1000, "no", "because")
+			case 3:
+				panic("boom")
 			}
 			r := "r:" + *arg
 			return &r, nil
 		})
+		hBad := srv.SubRoute("/bad").RouteCallFunc(func(ctx erpc.CallCtx, arg *string) (*float64, *erpc.Status) {
+			r := math.NaN()
+			return &r, nil
+		})
+		switch outcome {
+		case 2:
+			h = hBad
+		case 4:
+			h = "/no/such/route"
+		}
 		cli := world.NewPeer("json")
 		var reqPipe, repPipe []byte
 		rec := &pipeSpy{}
@@ -281,20 +301,32 @@ func c12Live(p Params) func() {
 			st = cs.Call(h, "x", &res).Status()
 		}
 		reqPipe, repPipe = pp, rec.replyPipe
-		if fail {
-			if st.Code() != 1000 {
-				vsched.Failf("call with pipe %q over %s: status %s, want 1000", pp, pr, world.StatStr(st))
+		ctxt := fmt.Sprintf("pipe %q over %s, handler outcome %d", pp, pr, outcome)
+		switch outcome {
+		case 0:
+			if !st.OK() || res != "r:x" {
+				vsched.Failf("call failed: %s %q | %s", world.StatStr(st), res, ctxt)
 			}
-		} else if !st.OK() || res != "r:x" {
-			vsched.Failf("call with pipe %q over %s failed: %s %q", pp, pr, world.StatStr(st), res)
+		case 1:
+			if st.Code() != 1000 || st.Msg() != "no" {
+				vsched.Failf("caller got %s, want the handler's status (1000|no|because) | %s", world.StatStr(st), ctxt)
+			}
+		case 2, 3:
+			if st.Code() != erpc.CodeInternalServerError {
+				vsched.Failf("caller got %s, want 500 Internal Server Error | %s", world.StatStr(st), ctxt)
+			}
+		case 4:
+			if st.Code() != erpc.CodeNotFound {
+				vsched.Failf("caller got %s, want 404 Not Found | %s", world.StatStr(st), ctxt)
+			}
 		}
 		if !rec.seen {
-			vsched.Failf("no reply observed")
+			vsched.Failf("no reply observed | %s", ctxt)
 		}
 		if !bytes.Equal(reqPipe, repPipe) && !(len(reqPipe) == 0 && len(repPipe) == 0) {
-			vsched.Failf("call sent through pipe %q but the reply frame carried pipe %q (proto %s, handler_fails=%v)", reqPipe, repPipe, pr, fail)
+			vsched.Failf("call sent through pipe %q but the reply frame carried pipe %q | %s", reqPipe, repPipe, ctxt)
 		}
-		vsched.Logf("pipe=%q proto=%s fail=%v", pp, pr, fail)
+		vsched.Logf("%s", ctxt)
 	}
 }
 
